@@ -45,7 +45,8 @@ fn table_from_pairs(
         // value they lead to, towards the recursion limit.
         #[cfg(not(feature = "unbounded"))]
         RecursionCheck::check_depth(path.len() + 1 + value.as_value().map_or(0, value_depth))?;
-        let table = descend_path(&mut root, &path)?;
+        let value_end = value.span().map(|span| span.end);
+        let table = descend_path(&mut root, &path, value_end)?;
 
         // "Likewise, using dotted keys to redefine tables already defined in [table] form is not allowed"
         let mixed_table_types = table.is_dotted() == path.is_empty();
@@ -89,6 +90,7 @@ fn value_depth(value: &Value) -> usize {
 fn descend_path<'a>(
     mut table: &'a mut InlineTable,
     path: &'a [Key],
+    value_end: Option<usize>,
 ) -> Result<&'a mut InlineTable, CustomError> {
     let dotted = !path.is_empty();
     for (i, key) in path.iter().enumerate() {
@@ -109,6 +111,16 @@ fn descend_path<'a>(
                         key: key.get().into(),
                         table: None,
                     });
+                }
+                if sweet_child_of_mine.is_dotted() {
+                    // A table made of dotted keys spans from its first key to its last value
+                    if let (Some(key_span), Some(end)) = (key.span(), value_end) {
+                        let span = match sweet_child_of_mine.span.take() {
+                            Some(span) => span.start.min(key_span.start)..span.end.max(end),
+                            None => key_span.start..end,
+                        };
+                        sweet_child_of_mine.span = Some(span);
+                    }
                 }
                 table = sweet_child_of_mine;
             }
